@@ -2,6 +2,7 @@ package checks
 
 import (
 	"bytes"
+	"encoding/hex"
 	"fmt"
 	"reflect"
 	"runtime"
@@ -21,6 +22,7 @@ func init() {
 	register(&Check{ID: "C05", Level: "model_checking", Run: runC05, QuickBudget: 400 * time.Second, ThoroughBudget: 45 * time.Minute})
 	Replayers["c05hist"] = replayC05Hist
 	Replayers["c05build"] = replayC05Build
+	Replayers["c05opt"] = replayC05Opt
 }
 
 // answers renders every answer of one instance to one query.
@@ -211,10 +213,11 @@ func histAlphabet(sp *spaceCtx) []histStream {
 	var al []histStream
 	al = append(al, histStream{"empty", mk(nil, nil, h.Opt4{D: 1}), false, true})
 	al = append(al, histStream{"default-A", mk(keysA, ids(5), h.Opt4{D: 1}), false, true})
-	al = append(al, histStream{"complete-B", mk(keysB, ids(5), h.Opt4{D: 1, C: 1}), true, true})
+	idsB := []int{11, 12, 13, 14, 15} // other values than the A streams at the same leaf positions
+	al = append(al, histStream{"complete-B", mk(keysB, idsB, h.Opt4{D: 1, C: 1}), true, true})
 	al = append(al, histStream{"complete-A-novalues", mk(keysA, nil, h.Opt4{D: 1, C: 1}), true, true})
 	al = append(al, histStream{"inner-A", mk(keysA, ids(5), h.Opt4{D: 1, I: 1}), false, true})
-	al = append(al, histStream{"leaf-B", mk(keysB, ids(5), h.Opt4{D: 1, L: 1}), false, true})
+	al = append(al, histStream{"leaf-B", mk(keysB, idsB, h.Opt4{D: 1, L: 1}), false, true})
 	al = append(al, histStream{"dedup-A", mk(keysA, []int{1, 1, 2, 2, 2}, h.Opt4{D: 1, C: 1}), true, true})
 	// one with short nodes and big nodes
 	{
@@ -244,8 +247,36 @@ func histAlphabet(sp *spaceCtx) []histStream {
 }
 
 type histOp struct {
-	Kind   string `json:"kind"` // unmarshal | proto | reset | observe
+	Kind   string `json:"kind"` // unmarshal | proto | reset | observe | probe
 	Stream int    `json:"stream"`
+	// probe: ONE read call (API 0 Get, 1 RangeGet, 2 Search, 3 GetI32) of one query
+	QHex string `json:"q_hex,omitempty"`
+	API  int    `json:"api,omitempty"`
+}
+
+var probeAPIs = []string{"Get", "RangeGet", "Search", "GetI32"}
+
+// probe performs the single read of a probe op and renders its result.
+func probe(st *trie.SlimTrie, op histOp) string {
+	qb, _ := hex.DecodeString(op.QHex)
+	q := string(qb)
+	switch op.API {
+	case 0:
+		v, f := st.Get(q)
+		return fmt.Sprintf("%v/%v", v, f)
+	case 1:
+		v, f := st.RangeGet(q)
+		return fmt.Sprintf("%v/%v", v, f)
+	case 2:
+		l, e, r := st.Search(q)
+		return fmt.Sprintf("%v/%v/%v", l, e, r)
+	default:
+		if v, f := st.Get(q); !f || v == nil {
+			return "n/a" // the typed getter is defined for tries that store 4-byte values
+		}
+		x, f := st.GetI32(q)
+		return fmt.Sprintf("%d/%v", x, f)
+	}
 }
 
 func (o histOp) String(al []histStream) string {
@@ -254,6 +285,9 @@ func (o histOp) String(al []histStream) string {
 	}
 	if o.Kind == "observe" {
 		return "ReadEverything"
+	}
+	if o.Kind == "probe" {
+		return probeAPIs[o.API] + "(" + o.QHex + ")"
 	}
 	return o.Kind + "(" + al[o.Stream].Name + ")"
 }
@@ -330,6 +364,8 @@ func applyOp(st *trie.SlimTrie, op histOp, al []histStream) (err error, p interf
 			_ = st.String()
 			st.Marshal()
 			proto.Size(st)
+		case "probe":
+			probe(st, op)
 		case "unmarshal":
 			err = st.Unmarshal(append([]byte{}, al[op.Stream].Bytes...))
 		case "proto":
@@ -366,14 +402,35 @@ func evalHist(w *h.Worker, al []histStream, refObs []string, refDig []uint64, em
 	st := startInstance(start)
 	lastDefining := -1 // index of the stream that defines the state, -2 = reset, -1 = start state
 	lastRejected := false
-	for _, op := range ops {
+	for oi, op := range ops {
+		if op.Kind == "probe" && oi == len(ops)-1 && lastDefining >= 0 && !lastRejected {
+			// a history that ends with a single read: this read is the FIRST one after
+			// the last load and must answer like the same read on a fresh instance
+			// that only loaded that stream
+			var got, want string
+			if p := h.Safely(func() { got = probe(st, op) }); p != nil {
+				return &h.Viol{Sig: "history-panic", Msg: fmt.Sprintf("%s panicked: %v", op.String(al), p)}
+			}
+			ref := startInstance("new")
+			if e := ref.Unmarshal(append([]byte{}, al[lastDefining].Bytes...)); e != nil {
+				return nil
+			}
+			if p := h.Safely(func() { want = probe(ref, op) }); p != nil {
+				return nil // a read that panics on a fresh instance is not a history matter
+			}
+			w.Trans++
+			if got != want {
+				return &h.Viol{Sig: "history-residue", Msg: fmt.Sprintf("first read after the last load: %s = %s, a fresh instance that only loaded the last stream answers %s", op.String(al), got, want)}
+			}
+			continue
+		}
 		err, p := applyOp(st, op, al)
 		w.Trans++
 		if p != nil {
 			return &h.Viol{Sig: "history-panic", Msg: fmt.Sprintf("%s panicked: %v", op.String(al), p)}
 		}
 		switch {
-		case op.Kind == "observe":
+		case op.Kind == "observe" || op.Kind == "probe":
 			// reads define nothing
 		case op.Kind == "reset":
 			lastDefining, lastRejected = -2, false
@@ -451,12 +508,14 @@ func runC05(r *h.Run) {
 		drop := map[string]bool{"lift1": true, "bigroot-lo": true, "bigroot-hi": true, "shift2": true, "shift5": true, "shift11": true}
 		p.scaffoldFilter = func(n string) bool { return !drop[n] }
 	}
-	r.Rule = "(a) for every trie of the C01 space (all 16 option combinations, encoders I32/String16/VarEnc, run patterns, nil values) and every query of Q: Get, GetID, RangeGet, Search, GetI32 (where applicable), scans from every start (complete modes), Stat and String are identical on the fresh, the Unmarshal-loaded and the proto-loaded instance (result-to-result, false positives included); (b) on every fresh trie: the same input built 4 times gives identical bytes, len(Marshal) = proto.Size = len(proto.Marshal), Marshal(Unmarshal(Marshal(t))) = Marshal(t) (short-table scaffolds with tied bitmap frequencies included); (c) explicit-state exploration of load/reset histories: every sequence of length <= 3 over {Unmarshal(s), proto.Unmarshal(s)} x 14 streams, Reset and ReadEverything (every read API once, incl. Marshal and proto.Size, so that cached read state is exposed to the next load) (empty; default, complete, complete without values, inner-only, leaf-only, de-duplicated small tries; one with 257-bit and short nodes; legacy 0.5.3, 0.5.9, 0.5.10-innpref, 0.5.10-allpref; a truncated and a bad-version stream) and Reset, from a never-used and from a built instance; differential oracle: the observation vector (answers to Q, scans, Stat, String, Marshal bytes) equals that of a fresh instance that only loaded the last stream, or the empty observation after Reset. (d) build histories: every sequence of 2..3 builds over 11 inputs (tiny / small / short-table tries in filter, default and complete mode, the empty list, refused unsorted lists incl. one refused late, refused over-long runs at the root and deep in the trie, the same deep list accepted with InnerPrefix), run on one OS thread with the collector off: the last build's outcome (error class or marshaled bytes) equals the outcome of the same build run first. A state is a distinct (marshaled bytes, options, encoder) resp. a distinct observation vector"
+	r.Rule = "(a) for every trie of the C01 space (all 16 option combinations, encoders I32/String16/VarEnc, run patterns, nil values) and every query of Q: Get, GetID, RangeGet, Search, GetI32 (where applicable), scans from every start (complete modes), Stat and String are identical on the fresh, the Unmarshal-loaded and the proto-loaded instance (result-to-result, false positives included); (b) on every fresh trie: the same input built 4 times gives identical bytes, len(Marshal) = proto.Size = len(proto.Marshal), Marshal(Unmarshal(Marshal(t))) = Marshal(t) (short-table scaffolds with tied bitmap frequencies included); (c) explicit-state exploration of load/reset histories: every sequence of length <= 3 over {Unmarshal(s), proto.Unmarshal(s)} x 14 streams, Reset and ReadEverything (every read API once, incl. Marshal and proto.Size, so that cached read state is exposed to the next load) (empty; default, complete, complete without values, inner-only, leaf-only, de-duplicated small tries; one with 257-bit and short nodes; legacy 0.5.3, 0.5.9, 0.5.10-innpref, 0.5.10-allpref; a truncated and a bad-version stream) and Reset, from a never-used and from a built instance; plus every history [load s1, ONE read, load s2, ONE read] over the valid streams x both load forms x 8 queries x {Get, RangeGet, Search, GetI32}, whose last read is the first read after the reload; differential oracle: the observation vector (answers to Q, scans, Stat, String, Marshal bytes) equals that of a fresh instance that only loaded the last stream, or the empty observation after Reset. (d) build histories: every sequence of 2..3 builds over 11 inputs (tiny / small / short-table tries in filter, default and complete mode, the empty list, refused unsorted lists incl. one refused late, refused over-long runs at the root and deep in the trie, the same deep list accepted with InnerPrefix), run on one OS thread with the collector off: the last build's outcome (error class or marshaled bytes) equals the outcome of the same build run first. (e) option-cell histories: the caller overwrites Booleans it owns (obtained from trie.Bool, or the cells of an Opt after its build returned) in every prefix of 1..2 such steps, then builds with each of the 81 option forms made afresh from trie.Bool: the outcome equals that of the same build run first. A state is a distinct (marshaled bytes, options, encoder) resp. a distinct observation vector"
 	r.Assumptions = append([]string{"the state after a rejected load is decided by C07, not here", "a deep-digest difference without an observable difference is logged, not raised"}, commonAssumptions...)
 	runTriePass(r, buildPhases(r, p), oracleC05, nil)
 
 	// (d) build histories
 	runC05BuildHistories(r)
+	// (e) option-cell histories
+	runC05OptHistories(r)
 
 	// (c) histories
 	sp := newSpaceCtx(r.Seed)
@@ -470,9 +529,9 @@ func runC05(r *h.Run) {
 	}
 	var ops []histOp
 	for i := range al {
-		ops = append(ops, histOp{"unmarshal", i}, histOp{"proto", i})
+		ops = append(ops, histOp{Kind: "unmarshal", Stream: i}, histOp{Kind: "proto", Stream: i})
 	}
-	ops = append(ops, histOp{"reset", 0}, histOp{"observe", 0})
+	ops = append(ops, histOp{Kind: "reset"}, histOp{Kind: "observe"})
 	depth := 3
 	r.Bounds["history_ops"] = len(ops)
 	r.Bounds["history_depth"] = depth
@@ -508,6 +567,35 @@ func runC05(r *h.Run) {
 				return
 			}
 		}
+		// probe histories: [load s1, ONE read r1, load s2, ONE read r2] for every
+		// pair of valid streams x both load forms x every pair of single reads: r2
+		// is the first read after the reload (residue that only the next read of
+		// the same kind or leaf position sees), from a never-used instance
+		var loads, probes []histOp
+		for i := range al {
+			if al[i].Valid && al[i].Name != "complete-big-short" {
+				loads = append(loads, histOp{Kind: "unmarshal", Stream: i}, histOp{Kind: "proto", Stream: i})
+			}
+		}
+		for _, q := range []string{"", "\x00", "\x00\x00", "\x0f\xf0", "\x7f", "\xf0", "\xff", "\xff\xff"} {
+			for api := range probeAPIs {
+				probes = append(probes, histOp{Kind: "probe", QHex: hex.EncodeToString([]byte(q)), API: api})
+			}
+		}
+		for _, l1 := range loads {
+			for _, r1 := range probes {
+				for _, l2 := range loads {
+					if !thorough && l1.Kind != l2.Kind && l1.Stream%2 == 0 {
+						continue // quick: mixed load forms for every second first stream
+					}
+					for _, r2 := range probes {
+						if !emit(hu{"new", []histOp{l1, r1, l2, r2}}) {
+							return
+						}
+					}
+				}
+			}
+		}
 	}, func(w *h.Worker, x interface{}) {
 		u := x.(hu)
 		w.Begin(func() string { return fmt.Sprintf("C05 history %v", u.ops) })
@@ -523,7 +611,7 @@ func runC05(r *h.Run) {
 			w.Report(*v)
 			return
 		}
-		if len(u.ops) == 3 {
+		if len(u.ops) >= 3 {
 			var names []string
 			for _, o := range u.ops {
 				names = append(names, o.String(al))
@@ -716,6 +804,147 @@ func runC05BuildHistories(r *h.Run) {
 			w.Sample(map[string]interface{}{"build_history": ns})
 		}
 	})
+}
+
+// ---------- (e) option-cell histories ----------
+
+// The caller owns the Booleans its Opt points to, also those it got from
+// trie.Bool: it may overwrite them once a build has returned.  No later build,
+// whose options are made afresh, may depend on that.
+
+type optHistOp struct {
+	Kind string `json:"kind"` // "flip" (Bool(v), then write !v through it) | "build" (build with Opt, then flip its cells)
+	V    bool   `json:"v,omitempty"`
+	Opt  string `json:"opt,omitempty"`
+}
+
+type c05OptCase struct {
+	Prefix []optHistOp `json:"prefix"`
+	Final  string      `json:"final_opt"`
+}
+
+var optHistKeys = []string{"", "\x00", "\x0f\xf0", "\x0f\xf1", "\xf0", "\xff\xff"}
+var optHistVals = []int32{1, 1, 2, 3, 3, 4}
+
+// libOpt makes the Opt of o with cells obtained from trie.Bool.
+func libOpt(o h.Opt4) (trie.Opt, []*bool) {
+	var cells []*bool
+	mk := func(v int8) *bool {
+		if v < 0 {
+			return nil
+		}
+		p := trie.Bool(v == 1)
+		cells = append(cells, p)
+		return p
+	}
+	return trie.Opt{DedupValue: mk(o.D), InnerPrefix: mk(o.I), LeafPrefix: mk(o.L), Complete: mk(o.C)}, cells
+}
+
+func optBuildOutcome(opt trie.Opt) string {
+	var out string
+	if p := h.Safely(func() {
+		st, err := trie.NewSlimTrie(encode.I32{}, append([]string{}, optHistKeys...), append([]int32{}, optHistVals...), opt)
+		if err != nil {
+			out = "error"
+			return
+		}
+		buf, merr := st.Marshal()
+		out = fmt.Sprintf("ok:%x:%v", buf, merr)
+	}); p != nil {
+		return fmt.Sprintf("panic:%v", p)
+	}
+	return out
+}
+
+// evalOptHist runs prefix, then the final build, and undoes every write of the
+// prefix afterwards (so that histories stay independent even on a library that
+// shares option cells).
+func evalOptHist(prefix []optHistOp, final h.Opt4, ref string) *h.Viol {
+	type undo struct {
+		p *bool
+		v bool
+	}
+	var undos []undo
+	defer func() {
+		for i := len(undos) - 1; i >= 0; i-- {
+			*undos[i].p = undos[i].v
+		}
+	}()
+	for _, op := range prefix {
+		switch op.Kind {
+		case "flip":
+			p := trie.Bool(op.V)
+			undos = append(undos, undo{p, *p})
+			*p = !op.V
+		case "build":
+			opt, cells := libOpt(h.ParseOpt4(op.Opt))
+			optBuildOutcome(opt)
+			for _, c := range cells {
+				undos = append(undos, undo{c, *c})
+				*c = !*c
+			}
+		}
+	}
+	opt, _ := libOpt(final)
+	if got := optBuildOutcome(opt); got != ref {
+		return &h.Viol{Sig: "build-depends-on-option-cells", Msg: fmt.Sprintf("a build with options %s (cells from trie.Bool) gives another outcome after the caller overwrote option cells it owns than when it runs first (lengths %d vs %d)", final.String(), len(got), len(ref))}
+	}
+	return nil
+}
+
+func optHistPrefixOps() []optHistOp {
+	ops := []optHistOp{{Kind: "flip", V: true}, {Kind: "flip", V: false}}
+	for _, o := range h.All16() {
+		ops = append(ops, optHistOp{Kind: "build", Opt: o.String()})
+	}
+	ops = append(ops, optHistOp{Kind: "build", Opt: h.Opt4{D: -1, I: -1, L: -1, C: 1}.String()}, optHistOp{Kind: "build", Opt: h.Opt4{D: -1, I: -1, L: -1, C: -1}.String()})
+	return ops
+}
+
+func runC05OptHistories(r *h.Run) {
+	finals := h.All81()
+	ref := make([]string, len(finals))
+	for i, f := range finals {
+		ref[i] = optBuildOutcome(f.ToOpt()) // cells owned by the harness, before any write
+	}
+	ops := optHistPrefixOps()
+	r.Bounds["option_cell_histories"] = fmt.Sprintf("prefixes of 1..2 ops over %d ops (write through a pointer from trie.Bool(true/false); build with one of 18 option forms, then overwrite its cells) x 81 final option forms", len(ops))
+	// ONE unit: the histories run one after the other, nothing else runs meanwhile
+	r.Phase("option-cell-histories", func(emit func(u interface{}) bool) { emit(0) }, func(w *h.Worker, x interface{}) {
+		w.Begin(func() string { return "C05 option-cell histories" })
+		var prefixes [][]optHistOp
+		for _, a := range ops {
+			prefixes = append(prefixes, []optHistOp{a})
+			for _, b := range ops {
+				prefixes = append(prefixes, []optHistOp{a, b})
+			}
+		}
+		for _, pre := range prefixes {
+			for fi, f := range finals {
+				w.Evals++
+				w.Tick()
+				w.StatesN++
+				w.NontrivN++
+				w.Trans += int64(len(pre)) + 1
+				if v := evalOptHist(pre, f, ref[fi]); v != nil {
+					v.Msg += fmt.Sprintf(" | prefix %+v", pre)
+					v.Kind, v.Case, v.Unit = "c05opt", c05OptCase{Prefix: pre, Final: f.String()}, w.Unit()
+					w.Report(*v)
+					return
+				}
+			}
+		}
+		w.Sample(map[string]interface{}{"option_cell_histories": len(prefixes) * len(finals)})
+	})
+}
+
+func replayC05Opt(prop string, raw []byte) *h.Viol {
+	var cj c05OptCase
+	if err := jsonUnmarshal(raw, &cj); err != nil {
+		return &h.Viol{Msg: err.Error()}
+	}
+	f := h.ParseOpt4(cj.Final)
+	return evalOptHist(cj.Prefix, f, optBuildOutcome(f.ToOpt()))
 }
 
 func replayC05Hist(prop string, raw []byte) *h.Viol {
